@@ -51,7 +51,7 @@ def _frame_bounds(case, items):
 class C15(Check):
     ID = 'C15'
     LEVEL = 'exploration'
-    BUDGET = {'quick': 30, 'thorough': 240}
+    BUDGET = {'quick': 30, 'thorough': 240}      # (the exhaustive box is 'as much as fits'; the required classes come first)
     EXHAUSTIVE = {'quick': False, 'thorough': False}
     RULE = ('case = (framing config, item list, cut set, empty-chunk flag, truncation point); '
             'quick: every cut set of every stream <= 10 units built from item lists of length 0..3 over an '
@@ -140,12 +140,12 @@ class C15(Check):
                 yield self._mk(cfg, items, cuts)
 
     def _gen_random(self, rng, tier):
-        nrand = 6000 if tier == 'quick' else 10 ** 7
+        nrand = 2500 if tier == 'quick' else 10 ** 7
         cfgs = list(self._configs())
         # (c) random long streams, random cut sets, empty chunks, truncations
         for k in range(nrand):
             cfg = cfgs[rng.randrange(len(cfgs))]
-            if k % 150 == 75:
+            if k % 150 == 5:
                 # scale: streams of 100-400 KiB (beyond 64 KiB buffers), items up to 70 KiB, fixed-size and random chunks
                 big = cfgs[(k // 150) % len(cfgs)]
                 if big['framing'] == 'lp' and big['prefix'] == 1:
